@@ -132,4 +132,28 @@ PROPS = {
         "explanation": "Gate/preservation/pending-votes theorems valid from every storage (Proofs/Migration.v); correspondence: 11 real contracts x deployed versions around both bounds x 9 signer sets, plus seeded legacy storages migrated by the real _deploy through the injector stub, plus the Alphabet GAS distribution",
         "assumptions": ["layout premises of the quantifier: legacy_wf_balance (no prefixed namesake of an account), legacy_wf_container (decidable; every 57-byte key is a genuine owner-index entry, nothing else under 'x'/'o'), legacy snapshot/candidate values were written by std.Serialize", "recipients of the Alphabet's GAS transfers accept them (oracle); Notary native not active on the test chain"],
     },
+    "C10": {
+        "level_text": "NEP-11 accounting invariant (supply = number of non-TLD names ever registered = sum of balances = size of the token index; tokensOf exact, expired names included), availability boundary (exp-1, exp, exp+1), takeover of expired names, transfer/renew frames, readers need a live chain, exactly one Transfer notification per ownership change: proved in Coq for every history of the NNS model (any ops, any times); model tied to the compiled contract by differential correspondence incl. block-time stepping across expiry",
+        "level_note": "Trusted: Coq kernel; hand-written model validated differentially (payer pays fees, others only witness; block timestamps chosen by the harness); premise: name hash injective",
+        "technique": TECH_INV,
+        "harness_test": "TestC10",
+        "explanation": "Invariant by induction over all histories (Proofs/NNSAcct.v) + correspondence on seeded histories with time jumps to exp-1/exp/exp+1",
+        "assumptions": ["RIPEMD-160 injective on names (explicit premise hash_inj / injective hash)", "name/record-data syntax is C18's (Section variables, boolean tables in the cases files)", "receiving contracts' onNEP11Payment does not re-enter NNS; gas not modelled except BurnGas needing > 0"],
+    },
+    "C11": {
+        "level_text": "authorised(ctx, state, op) written from the property text, independent of the model's control flow; C11_sound (any state change or notification implies authorised) and C11_unauthorised_inert for every state, context and method; follows-ownership corollaries after transfer, takeover and for registered sub-names over histories; committee majority arithmetic",
+        "level_note": "Trusted: Coq kernel; hand-written model validated differentially with signer sets {owner, admin, former owner, former admin, parent owner, stranger, committee}; no premise",
+        "technique": "machine-checked proof in Rocq (Coq): one-step theorem for all states + history corollaries + model/implementation correspondence",
+        "harness_test": "TestC11",
+        "explanation": "One-step soundness/inertness from every state (Proofs/NNSAuth.v), lifted to histories",
+        "assumptions": ["RIPEMD-160 injective on names (explicit premise hash_inj / injective hash)", "name/record-data syntax is C18's (Section variables, boolean tables in the cases files)", "receiving contracts' onNEP11Payment does not re-enter NNS; gas not modelled except BurnGas needing > 0"],
+    },
+    "C12": {
+        "level_text": "Record-store invariant (ids 0..k-1, k<=16, at most one CNAME/SOA), the three readers = spec lists, add appends / set replaces / delete empties one type and never SOA (for all typ incl. byte aliases), records located under the longest registered unexpired enclosing name, SOA serial refreshed, resolve = resolve_spec with the exact fault condition (three or more links), conflicting parent records block register, expired names unreachable, distinct values: proved in Coq for every history; correspondence on the compiled contract",
+        "level_note": "Trusted: Coq kernel; hand-written model validated differentially (CNAME graphs of depth 0..4 with cycles, trailing dots, deep sub-names, expiry); premise: name hash injective",
+        "technique": TECH_INV,
+        "harness_test": "TestC12",
+        "explanation": "Invariant + refinement by induction over all histories (Proofs/NNSRecords.v); corpus keeps the F14 (setRecord duplicate) and deep-sub-name reader histories as regression guards",
+        "assumptions": ["RIPEMD-160 injective on names (explicit premise hash_inj / injective hash)", "name/record-data syntax is C18's (Section variables, boolean tables in the cases files)", "receiving contracts' onNEP11Payment does not re-enter NNS; gas not modelled except BurnGas needing > 0"],
+    },
 }
